@@ -417,7 +417,15 @@ def run_cli(ctx):
         plan += [('ok', 'split-positionals', 'none'), ('ok', 'bad-nthread', 'none'), ('ok', 'no-field', 'none'),
                  ('zero-d', 'plain', 'none'), ('ok', 'spellings', 'blsc'), ('mixed-width', 'spellings', 'none')]
     for k, (kind, style, comp) in enumerate(plan):
-        case = gen_case(rng, kind)
+        for _ in range(200):
+            case = gen_case(rng, kind)
+            if kind != 'ok':
+                break
+            # order-sensitive on purpose: the stream must change when files or fields are permuted
+            rf = dict(case, files=case['files'][::-1])
+            rq = dict(case, fields=case['fields'][::-1])
+            if spec(rf)[0] != spec(case)[0] and spec(rq)[0] != spec(case)[0]:
+                break
         case['compression'] = comp
         paths = materialise(ctx, case, 900000 + k)
         names = [os.path.basename(p) for p in paths]
